@@ -426,6 +426,17 @@ Proof.
 Qed.
 End Generic.
 
+(* ---- the path() wrappers: the estimator ends with the best weights iff restore_best_weights and not dynamic ---- *)
+Lemma restore_rule : forall (T : Type) (restore dynamic : bool) (st : St T),
+  (restore = true -> dynamic = false -> weights_after restore dynamic st = Some (s_bidx st)) /\
+  (restore = false \/ dynamic = true -> weights_after restore dynamic st = None) /\
+  (wrapper_warn_restore_dynamic restore dynamic = true <-> restore = true /\ dynamic = true).
+Proof.
+  intros T restore dynamic st. unfold weights_after, wrapper_restores, wrapper_warn_restore_dynamic.
+  destruct restore, dynamic; cbn; repeat split; intros; try reflexivity; try discriminate; try tauto;
+    try (destruct H; discriminate); try (destruct H; assumption).
+Qed.
+
 (* ================================================================== part 2: over R, regenerated rules *)
 Section Reals.
 Local Open Scope R_scope.
@@ -744,7 +755,7 @@ Proof.
   - exists st. repeat split; assumption.
 Qed.
 
-(* the same oracle with alpha0 = 1/2 > 0 does return: the hypotheses of the theorems about returned
+(* the same oracle with alpha0 = 1/2 > 0 does return: the premises of the theorems about returned
    paths are satisfiable over R *)
 Lemma wit_returns : exists fuel st nan, path Rops RR (wit_args (1/2) 1) wit_oracle fuel = Returned st nan.
 Proof.
